@@ -70,8 +70,10 @@ class World:
         self.scn = scn
         self.now = 0
         self.links = []                         # bus order
+        self.incarnations = []                  # every device that ever sat behind a port
         for i, spec in enumerate(scn['world']['boards']):
             self.links.append(Link(spec, i))
+            self.incarnations.append((spec['port'], spec, self.links[-1].device))
         self.bus_raises = False                 # comports() raises TypeError
         self.exclusive = scn['world'].get('exclusive', True)
         self.lose_inflight_on_raise = scn['world'].get('lose_inflight', True)
@@ -192,6 +194,21 @@ class World:
             link.handle.dead = True
             link.handle = None
         self.log('replug', link.port)
+
+    def replace_device(self, link, spec):
+        spec = dict(spec)
+        spec['port'] = link.port
+        if link.handle is not None:
+            link.handle.dead = True
+            link.handle = None
+        link.spec = spec
+        link.device = make_device(spec)
+        self.incarnations.append((link.port, spec, link.device))
+        link.open_fails = spec.get('open_fails', False)
+        link.plugged = spec.get('plugged', True)
+        link.rx.clear()
+        link.last_arrival = self.now
+        self.log('replace_device', link.port, spec.get('kind', 'ebb'), spec.get('fw'))
 
     # ------------------------------------------------------------------
     def deliver(self, handle, data):
@@ -314,6 +331,8 @@ class SimSerial:
             raise serial.SerialException("Port is already open.")
         link = w.link_by_port(self.port)
         self.link = link
+        if w.op_rec is not None:
+            w.op_rec['open_attempts'].append(self.port)
         w.next_io(self, 'open') if link is not None else self._open_missing()
         if link.open_fails:
             w.fired['open_fails'] += 1
